@@ -26,6 +26,7 @@ import (
 	"sync"
 	"time"
 
+	"github.com/golang/protobuf/proto"
 	"github.com/hashicorp/go-hclog"
 	"github.com/hashicorp/raft"
 	"github.com/robustirc/rafthttp"
@@ -77,6 +78,27 @@ func (s *vGateSnap) Persist(sink raft.SnapshotSink) error {
 		<-gate
 	}
 	return s.FSMSnapshot.Persist(sink)
+}
+
+// applyStamped commits a message the way the API does, but with the timestamp given (the API stamps with its own
+// clock: this is a leader whose clock differs from the previous leader's).
+func (n *vNode) applyStamped(m *robust.Message, unixNano int64) error {
+	m.UnixNano = unixNano
+	var data []byte
+	if *useProtobuf {
+		b, err := proto.Marshal(m.ProtoMessage())
+		if err != nil {
+			return err
+		}
+		data = append([]byte{'p'}, b...)
+	} else {
+		b, err := json.Marshal(m)
+		if err != nil {
+			return err
+		}
+		data = b
+	}
+	return n.raft.Apply(data, 10*time.Second).Error()
 }
 
 // snapshotWith forces a raft snapshot and runs f after FSM.Snapshot returned and before Persist starts.
